@@ -531,9 +531,21 @@ func (w *c07Worker) kill() {
 	w.cmd.Wait()
 }
 
+// When many requests got no answer the violation is established; the generators stop producing further
+// cases instead of waiting out the deadline hundreds of times (a removed cycle test makes every cyclic file
+// set hang).  The known hanging inputs of the corpora account for at most 6 of these.
+var c07NoAnswer int
+
+func c07GiveUp() bool { return c07NoAnswer >= 14 }
+
 // c07Call runs one request in the worker with a hard deadline; on expiry (or death of the worker:
 // fatal error such as a stack overflow) the worker is killed / restarted and the class says so.
-func c07Call(req *c07Req, hard time.Duration) c07Resp {
+func c07Call(req *c07Req, hard time.Duration) (out c07Resp) {
+	defer func() {
+		if out.Class == "timeout" || out.Class == "dead" {
+			c07NoAnswer++
+		}
+	}()
 	if c07W == nil {
 		c07W = c07Start()
 	}
